@@ -615,6 +615,10 @@ def _ca_tree(ca, ca_bits):
         return wire.ed25519_blob_tree(b'\x44' * 32)
     if ca == 'rsa':
         return wire.rsa_blob_tree(ca_bits)
+    if ca == 'sk-ed25519':      # a FIDO security-key CA (sk-ssh-ed25519@openssh.com; legal since OpenSSH 8.2)
+        return wire.sk_ed25519_blob_tree()
+    if ca == 'sk-ecdsa':
+        return wire.sk_ecdsa_blob_tree(256)
     if isinstance(ca, int):
         return wire.ecdsa_blob_tree(ca)
     return ca
